@@ -55,6 +55,16 @@ def handle : List Sexp → Option String
       some (match GenK.cerBool (← ln.toInt?) a with
         | .ok l => s!"ok {l}"
         | .error e => "err " ++ errName e)
+  | .atom "KWRAP" :: .atom indefOk :: .atom ine :: .atom dm :: .atom ic :: .atom io :: .atom nt :: args => do
+      -- KWRAP supportIndefLenMode ifNotEmpty defMode isConstructed isOctets ntags (cls fmt num)* substrate...
+      let a ← intArgs args
+      let n ← nt.toNat?
+      let rec triples : Nat → List Int → List (List Int)
+        | 0, _ => []
+        | k + 1, l => l.take 3 :: triples k (l.drop 3)
+      let tags := triples n a
+      let sub := a.drop (3 * n)
+      some (out (GenK.wrapTags (indefOk == "1") (ine == "1") tags (dm == "1") sub (ic == "1") (io == "1")))
   | .atom "KOIDDEC" :: args => do
       let a ← intArgs args
       some (out (GenK.oidDecode a))
